@@ -142,6 +142,27 @@ def run(report, tier, parts, select, label, cfg="on", floors_key=None):
             viol_detail[k] = {"what": "%d distinct source positions carry this key but the table entry was argued for %d: "
                                       "a new panic-capable construct of the same kind in the same function" % (len(ps), mx),
                               "positions": sorted(ps), "paths": [x[1][:300] for x in ex]}
+    # -- the other end of each argument: what the callers of the function pass ---------------
+    ncallers = 0
+    for key in positions:
+        allowed = triage[key].get("caller_fingerprints")
+        if allowed is None:
+            continue
+        if mir is None:
+            mir = engine_fp.Mir()
+        cur = mir.caller_fingerprints(key.split(" | ")[0])
+        ncallers += len(cur)
+        bad = [f for f in cur if f not in allowed]
+        if bad:
+            k = "A|" + key + "|callers changed"
+            ex = sorted(pos_example[(key, p)] for p in positions[key] if (key, p) in pos_example)
+            viol_roots[k].extend(x[0] for x in ex[:8])
+            viol_detail[k] = {"what": "a call to the function holding this allow-listed construct passes something the "
+                                      "table entry was not argued for: `%s` (recorded: %s); the entry's reason (%s) "
+                                      "rests on what callers pass and must be argued again" % (
+                                          bad[0][:200], "; ".join(a[:90] for a in allowed[:3]), triage[key].get("reason", "")[:120]),
+                              "call": bad, "recorded": allowed}
+    stats["caller_renderings"] = ncallers
     for k, roots in viol_roots.items():
         d = dict(viol_detail[k])
         d["roots"] = len(roots)
@@ -172,6 +193,7 @@ def run(report, tier, parts, select, label, cfg="on", floors_key=None):
         "triaged_infeasible": stats["triaged"], "violating_sites": stats["violation"],
         "distinct_table_keys_hit": len(positions), "controls_passed": nctl,
         "allow_listed_constructs_fingerprinted": stats["fp_located"], "allow_listed_constructs_not_located": stats["fp_unlocated"],
+        "caller_renderings_compared": stats["caller_renderings"],
         "crates": len(crates), "unanalysed": unanalysed[:20], "unanalysed_count": len(unanalysed),
         "library_callees": dict(lib_seen), "roots_with_indirect_calls": stats["roots_with_indirect_calls"],
         "samples": samples, "floor": want,
